@@ -134,6 +134,54 @@ def _edge_fn(ctx, q, need_abs):
     return fi, du, cfg, augs
 
 
+def _unwrap_rule(ctx, fi, du, cfg):
+    """The index matrix has one row per array dimension and one column per detected edge.  For 1-D input the single row is returned -
+    chosen by the number of DIMENSIONS (len(ind) == 1 / ind.shape[0] == 1 / x.ndim == 1).  np.squeeze without an axis also drops the edge axis
+    when exactly one edge was found: the result's shape then depends on the data (a 0-d scalar for one edge on a line; (2,) instead of (2, 1)
+    for one edge in a 2-D array, indistinguishable from two events on a line)."""
+    from sa import guards as GD
+    from sa.common import value_alternatives
+
+    def onedim_atoms(at, pc):
+        out = []
+        for k in GD.atoms_of(pc):
+            a = at.exprs.get(k)
+            if not (isinstance(a, ast.Compare) and len(a.ops) == 1 and isinstance(a.ops[0], ast.Eq)):
+                continue
+            sides = [a.left, a.comparators[0]]
+            if not any(isinstance(x, ast.Constant) and x.value == 1 for x in sides):
+                continue
+            other = [x for x in sides if not (isinstance(x, ast.Constant) and x.value == 1)]
+            if other and (src(other[0]) in ("len(ind)", "ind.shape[0]") or src(other[0]).endswith(".ndim")):
+                out.append(k)
+        return out
+    for r in returns_of(fi.node):
+        e = r.value.elts[0] if isinstance(r.value, ast.Tuple) and r.value.elts else r.value
+        if e is None:
+            continue
+        for gs, v in value_alternatives(du, e, r, keep=("ind",)):
+            if isinstance(v, ast.Call) and call_name(v) == "squeeze":
+                ax = kwarg(v, "axis") or (v.args[1] if len(v.args) > 1 else None)
+                if isinstance(v.func, ast.Attribute) and not (isinstance(v.func.value, ast.Name) and v.func.value.id in ("np", "numpy", "gp")) and v.args:
+                    ax = ax or v.args[0]
+                ctx.check(ax is not None and const_value(ax) == (True, 0), fi, r, v, "only the dimension axis is dropped",
+                          f"`{src(v)}` drops every length-one axis of the (dimensions x edges) index matrix - also the edge axis when exactly ONE edge is detected: a single "
+                          "event on a line comes back as a 0-d scalar (no len(), not iterable), a single edge in a 2-D input as the pair (row, sample) that reads as two events",
+                          key="unwrap:squeeze", name_free=True)
+                continue
+            if isinstance(v, ast.Subscript) and const_value(v.slice) == (True, 0) and loc_name(v.value) == "ind":
+                at = GD.Atoms()
+                pc = GD.And(GD.path_condition(cfg, cfg.node_for(r), at), *[GD.formula(t, at, pol) for t, pol in gs])
+                ok = any(GD.entails(pc, GD.Atom(k)) is True for k in onedim_atoms(at, pc))
+                ctx.check(ok, fi, r, r, "the single index row is returned only for 1-D input", "`ind[0]` is returned without testing that the input is 1-D: for 2-D input the sample axis is lost",
+                          key="unwrap:row0", name_free=True)
+                continue
+            if loc_name(v) == "ind":
+                ctx.ok(fi, r, r, "index matrix returned as is", key="unwrap:full")
+                continue
+            raise AnalysisError(f"{fi.qualname}: returned index expression `{src(v)[:60]}` not understood")
+
+
 def d2_edges(ctx):
     ctx.rule("D2", "fronts/rises: where(diff >= step), index + 1 along axis, sign read before the shift; falls negates signal and step")
     repo = ctx.repo
@@ -146,15 +194,25 @@ def d2_edges(ctx):
         okv = isinstance(v, ast.Subscript) and loc_name(v.value) == "d"
         ctx.check(ok and okv, fi, sg[0].stmt, sg[0].stmt, "polarity is read from the difference at the un-shifted index",
                   "polarity is read after the index shift (or not from the difference): wrong sign / IndexError at the end", key="sign-order")
+    wh = [c for c in find(fi.node, ast.Call, nested=False) if call_name(c) in ("where", "nonzero", "argwhere")]
     for r in returns_of(fi.node):
         if isinstance(r.value, ast.Tuple):
-            ctx.check(len(r.value.elts) == 2 and loc_name(r.value.elts[1]) == "sign", fi, r, r, "returns (indices, polarity)", "return order changed", key="ret:" + norm(r.value)[:30])
+            okp = len(r.value.elts) == 2
+            if okp:
+                pv = expand_name(du, r.value.elts[1], r)
+                # polarity = the differences at the detected edges, in detection order: d[tuple(ind)] read before the shift, or d[<the detection mask>]
+                okp = loc_name(r.value.elts[1]) == "sign" or (isinstance(pv, ast.Subscript) and loc_name(pv.value) == "d" and bool(wh) and wh[0].args
+                                                               and norm(expand_name(du, pv.slice, r)) == norm(expand_name(du, wh[0].args[0], wh[0])))
+            ctx.check(okp, fi, r, r, "returns (indices, polarity of each detected edge)", "the second returned value is not the difference at the detected edges (return order changed?)",
+                      key="ret:" + norm(r.value)[:30], name_free=True)
+    _unwrap_rule(ctx, fi, du, cfg)
     fr = repo.fn("ibldsp.utils.rises")
     if _delegates_to_fronts(ctx, "ibldsp.utils.rises", +1):
         if _delegates_to_fronts(ctx, "ibldsp.utils.falls", -1):
             return
     else:
-        _edge_fn(ctx, "ibldsp.utils.rises", False)
+        fi_r, du_r, cfg_r, _ = _edge_fn(ctx, "ibldsp.utils.rises", False)
+        _unwrap_rule(ctx, fi_r, du_r, cfg_r)
     # analog conversion
     for st in walk_function(fr.node):
         if isinstance(st, ast.Assign) and loc_name(st.targets[0]) == "x":
